@@ -989,6 +989,53 @@ func checkWaiterLifetime(c *Ctx, funcs []*ssa.Function, inserter *ssa.Function) 
 			deleters[w.Fn] = true
 		}
 	}
+	// what a (non-taking) remover removes: its delete is unconditional, or happens exactly when the table still holds
+	// the channel handed over for that id — the entry of the calling exchange itself (D13)
+	for d := range deleters {
+		if strings.Contains(d.Name(), "$") {
+			continue
+		}
+		dfn := d
+		eachInstr(d, func(x ssa.Instruction) {
+			cc, ok := x.(*ssa.Call)
+			if !ok || callName(cc) != "builtin:delete" {
+				return
+			}
+			if k, _ := baseFieldOfContainer(cc.Call.Args[0]); k != T+"TraditionalDnsConn.queue" {
+				return
+			}
+			gs := guardsOfInstr(x)
+			if len(gs) == 0 {
+				c.ok("remove-own-entry@"+funcName(dfn), instrPos(x), "unconditional removal of the given id")
+				return
+			}
+			good := len(gs) == 1
+			why := itoa(int64(len(gs))) + " conditions"
+			if good {
+				g := gs[0]
+				if ex, isB := func() (*ssa.Extract, bool) { v, t := g.asBool(); e, ok := v.(*ssa.Extract); return e, ok && t }(); isB {
+					// `c, ok := m[k]; if ok { delete }` — the take
+					lk, isLk := ex.Tuple.(*ssa.Lookup)
+					good = ex.Index == 1 && isLk && sameKeyValue(lk.Index, cc.Call.Args[1])
+					why = "guarded by " + guardText(g)
+				} else if cm, isC := g.asCmp(); isC {
+					lk, isLk := cm.X.(*ssa.Lookup)
+					_, isPar := cm.Y.(*ssa.Parameter)
+					if !isLk {
+						lk, isLk = cm.Y.(*ssa.Lookup)
+						_, isPar = cm.X.(*ssa.Parameter)
+					}
+					good = cm.Op == token.EQL && isLk && isPar && sameKeyValue(lk.Index, cc.Call.Args[1])
+					why = "guarded by " + guardText(g)
+				} else {
+					good = false
+					why = "guarded by " + guardText(g)
+				}
+			}
+			c.check(good, "remove-own-entry@"+funcName(dfn), instrPos(x), "removes the id's entry exactly when it is the caller's own channel",
+				"the waiter is removed under another condition than 'the table still holds this exchange's channel' ("+why+"): the id stays registered for good (the table fills up, admitted queries fail with 'too many queries') or another query's waiter is removed and its reply dropped")
+		})
+	}
 	for _, f := range funcs {
 		fn := f
 		eachInstr(f, func(in ssa.Instruction) {
@@ -1012,6 +1059,18 @@ func checkWaiterLifetime(c *Ctx, funcs []*ssa.Function, inserter *ssa.Function) 
 			c.see(fn)
 			key := "unregister-only-at-exit@" + funcName(fn)
 			_, isDefer := in.(*ssa.Defer)
+			if !isDefer {
+				// the reader may take the waiter out when (and only when) it hands the reply to that very waiter: the callee
+				// returns the entry it removed, and the caller sends on the returned channel (D13: answered queries leave
+				// the table at once, so that what is left are the unanswered ones)
+				if why := claimingTake(p, sc, in, T+"TraditionalDnsConn.queue"); why == "" {
+					c.ok(key+":claim", instrPos(in), "the reader removes the waiter it delivers the reply to")
+					return
+				} else if why != "not a take" {
+					c.fail(key+":claim", instrPos(in), "the reader takes a waiter out of the table but %s: a reply that arrives afterwards — in time for the caller's deadline — finds no waiter and is dropped", why)
+					return
+				}
+			}
 			// inside an anonymous function that the registering function defers
 			inDeferred := false
 			if par := fn.Parent(); par != nil {
@@ -1034,6 +1093,90 @@ func checkWaiterLifetime(c *Ctx, funcs []*ssa.Function, inserter *ssa.Function) 
 				"the waiter is removed before the exchange returns: a reply that arrives afterwards — in time for the caller's deadline — finds no waiter and is dropped")
 		})
 	}
+}
+
+// claimingTake decides whether the call `in` of the deleter `sc` is a "take": sc looks an entry up (comma-ok), removes
+// that entry only when it was found, and returns the looked-up channel on every path; and the caller sends on the
+// returned channel. Returns "" when it is, "not a take" when sc has another shape, or what is wrong with the take.
+func claimingTake(p *Prog, sc *ssa.Function, in ssa.Instruction, mapKey string) string {
+	var lk *ssa.Lookup
+	var del *ssa.Call
+	nDel := 0
+	eachInstr(sc, func(x ssa.Instruction) {
+		switch y := x.(type) {
+		case *ssa.Lookup:
+			if k, _ := baseFieldOfContainer(y.X); k == mapKey && y.CommaOk {
+				lk = y
+			}
+		case *ssa.Call:
+			if callName(y) == "builtin:delete" {
+				if k, _ := baseFieldOfContainer(y.Call.Args[0]); k == mapKey {
+					del = y
+					nDel++
+				}
+			}
+		}
+	})
+	if lk == nil || del == nil || nDel != 1 {
+		return "not a take"
+	}
+	var val ssa.Value
+	for _, r := range referrers(lk) {
+		if ex, ok := r.(*ssa.Extract); ok && ex.Index == 0 {
+			val = ex
+		}
+	}
+	rets := returnsOf(sc)
+	if val == nil || len(rets) == 0 {
+		return "not a take"
+	}
+	for _, r := range rets {
+		if r.Block().Comment == "recover" {
+			continue
+		}
+		rv := returnedValues(r)
+		if len(rv) == 0 {
+			return "not a take"
+		}
+		tr := p.newTracer()
+		tr.throughCalls, tr.throughFields, tr.throughParams = false, false, false
+		os := tr.origins(rv[0])
+		if len(os) != 1 || !(os[0] == val || os[0] == ssa.Value(lk)) {
+			return "not a take"
+		}
+	}
+	if !sameKeyValue(lk.Index, del.Call.Args[1]) {
+		return "it removes another entry than the one it returns"
+	}
+	for _, g := range guardsOfInstr(del) {
+		v, truth := g.asBool()
+		ex, isEx := v.(*ssa.Extract)
+		if !isEx || !truth || ex.Index != 1 || ex.Tuple != ssa.Value(lk) {
+			return "the removal is conditional on " + guardText(g)
+		}
+	}
+	// the caller: sends on the returned channel
+	cv, ok := in.(*ssa.Call)
+	if !ok {
+		return "the returned channel is dropped"
+	}
+	sent := false
+	eachInstr(in.Parent(), func(x ssa.Instruction) {
+		if sel, ok := x.(*ssa.Select); ok {
+			for _, st := range sel.States {
+				if st.Dir == types.SendOnly && st.Chan == ssa.Value(cv) && instrDominates(in, x) {
+					sent = true
+				}
+			}
+		}
+		if snd, ok := x.(*ssa.Send); ok && snd.Chan == ssa.Value(cv) && instrDominates(in, x) {
+			sent = true
+		}
+	})
+	if !sent {
+		return "does not send the reply on the channel it took out"
+	}
+	return ""
 }
 
 // checkAttemptOutcome (C08-R7): a failed attempt on a connection is visible as a non-nil error to the retry loop,
@@ -1220,4 +1363,162 @@ func iterationCanSkip(target ssa.Instruction, allowedSkip func(iff *ssa.If, trut
 		walk(s)
 	}
 	return skip, hdr
+}
+
+
+// checkCtxCallsGetCallerCtx: inside the transports' ExchangeContext functions every call of a mosdns function that
+// takes a context (dial helpers, reservation, attempts) is given the caller's own context parameter.
+func checkCtxCallsGetCallerCtx(c *Ctx, funcs []*ssa.Function) {
+	p := c.P
+	for _, f := range funcs {
+		if f.Name() != "ExchangeContext" || f.Parent() != nil || len(f.Params) < 2 {
+			continue
+		}
+		var cp *ssa.Parameter
+		for _, pa := range f.Params {
+			if pa.Type().String() == "context.Context" {
+				cp = pa
+				break
+			}
+		}
+		if cp == nil {
+			continue
+		}
+		fn := f
+		eachInstr(f, func(in ssa.Instruction) {
+			ci, ok := in.(*ssa.Call)
+			if !ok {
+				return
+			}
+			sc := staticCallee(ci)
+			if sc == nil || !inMosdns(sc) {
+				return
+			}
+			for _, a := range ci.Call.Args {
+				if a.Type().String() != "context.Context" {
+					continue
+				}
+				c.see(fn)
+				c.check(isParamValue(p, a, cp), "caller-ctx@"+funcName(fn)+"->"+sc.Name(), instrPos(in), "gets the caller's own context",
+					sc.Name()+" runs under "+exprStr(a)+", not the context the caller passed: a deadline added on the way ends the retries (or the dial of the fresh connection) before the caller's context ends")
+				break
+			}
+		})
+	}
+}
+
+// checkDoneCaseReportsOwnCtx: a select case that fires on X.Done() and returns an error taken from a context
+// (context.Cause(Y) / Y.Err()) takes it from X: the error of another, still live context is nil, and the function
+// then returns (nil, nil) — its caller dereferences the nil result.
+func checkDoneCaseReportsOwnCtx(c *Ctx, funcs []*ssa.Function) {
+	p := c.P
+	ctxOf := func(v ssa.Value) []ssa.Value {
+		tr := p.newTracer()
+		tr.throughCalls, tr.throughFields, tr.throughParams = false, false, false
+		return tr.origins(v)
+	}
+	sameCtx := func(a, b ssa.Value) bool {
+		ka, oka := loadedField(a)
+		kb, okb := loadedField(b)
+		if oka || okb {
+			return oka && okb && ka == kb
+		}
+		oa, ob := ctxOf(a), ctxOf(b)
+		if len(oa) == 0 || len(ob) == 0 {
+			return false
+		}
+		for _, x := range oa {
+			found := false
+			for _, y := range ob {
+				if x == y {
+					found = true
+				}
+			}
+			if !found {
+				return false
+			}
+		}
+		return true
+	}
+	// a context derived from another by WithCancel/WithTimeout/...: the parent's error is non-nil only if ... not in
+	// general; but Cause(parent) after child.Done() is what the current tree does in getNewConn (callCtx is cancelled
+	// only by the parent or at function exit), so a derivation chain child -> parent is accepted.
+	derivedFrom := func(child, parent ssa.Value) bool {
+		for _, o := range ctxOf(child) {
+			ex, ok := o.(*ssa.Extract)
+			if !ok {
+				continue
+			}
+			cl, ok := ex.Tuple.(*ssa.Call)
+			if !ok || !strings.HasPrefix(callName(cl), "context.With") || len(cl.Call.Args) == 0 {
+				continue
+			}
+			if sameCtx(cl.Call.Args[0], parent) {
+				return true
+			}
+		}
+		return false
+	}
+	for _, f := range funcs {
+		fn := f
+		eachInstr(f, func(in ssa.Instruction) {
+			sel, ok := in.(*ssa.Select)
+			if !ok {
+				return
+			}
+			cases, _, okd := decodeSelect(sel)
+			if !okd {
+				return
+			}
+			for _, cs := range cases {
+				if cs.State.Dir != types.RecvOnly || !isCtxDone(cs.State.Chan) || cs.Body == nil {
+					continue
+				}
+				fired := cs.State.Chan.(*ssa.Call).Call.Value
+				// returns reachable in the case body before leaving it
+				seen := map[*ssa.BasicBlock]bool{}
+				var walk func(b *ssa.BasicBlock)
+				walk = func(b *ssa.BasicBlock) {
+					if seen[b] || !cs.Body.Dominates(b) {
+						return
+					}
+					seen[b] = true
+					for _, x := range b.Instrs {
+						r, isR := x.(*ssa.Return)
+						if !isR {
+							continue
+						}
+						for _, rv := range returnedValues(r) {
+							if rv.Type().String() != "error" {
+								continue
+							}
+							for _, o := range ctxOf(rv) {
+								cl, isC := o.(*ssa.Call)
+								if !isC {
+									continue
+								}
+								var src ssa.Value
+								switch callName(cl) {
+								case "context.Cause":
+									src = cl.Call.Args[0]
+								case "invoke:(context.Context).Err":
+									src = cl.Call.Value
+								default:
+									continue
+								}
+								c.see(fn)
+								good := sameCtx(src, fired) || derivedFrom(fired, src)
+								c.check(good, "done-case-own-error@"+funcName(fn), instrPos(r), "the case reports the error of the context that fired",
+									"the case fires on "+exprStr(fired)+".Done() but returns the error of "+exprStr(src)+": when that context is still live the error is nil and the function returns (nil, nil); the caller then uses a nil connection / reply")
+							}
+						}
+					}
+					for _, sb := range b.Succs {
+						walk(sb)
+					}
+				}
+				walk(cs.Body)
+			}
+		})
+	}
 }
